@@ -2,14 +2,15 @@
   Driver ops for C06 (one source (re)connection):
 
     sync <d|m> <id1> <id2> <switchOff> <backlog 0|1> <backlogFirst> <backlogLen>
-         <masterOff> <snapLen> <capaId 0|1> <K> <spId> <spOff> <cRunId> <rdbLeft|x> <rdbSize|x>
+         <masterOff> <snapLen> <capaId 0|1> <K> <spId> <spOff> <cRunId> <rdbLeft|x> <rdbSize|x> <rdbTokId>
          <aofL|x> <aofR|x> <seedBase> <seed1> <seed2> <seedOther> <harness-only tokens…>
 
   ids are hex ("-" = empty). `K` = bytes the source produces after the reply.
   The histories of the world are PRF streams: below `switchOff` id1 and id2
   share `seedBase`, above they use `seed1`/`seed2`; any other id uses
   `seedOther`. The cache holds `hist cRunId` on its log range and the snapshot
-  `(cRunId, rdbLeft)`.
+  `(rdbTokId, rdbLeft)` (the snapshot may have been taken under the previous id
+  and relabelled since).
 
   Output (each line prefixed "#<op index> " by the harness; the driver gets the
   index as the first token after `sync`? no — the harness passes it as `@<i>`):
@@ -64,9 +65,9 @@ def readerStr : ReaderK → String
 
 def rangeList (start : Int) (n : Nat) : List Int := (List.range n).map (fun (k : Nat) => start + (k : Int))
 
-def handleSync (tag : String) (c : Cache) (src : Source) (k : Int) (sp : SP) (sb s1 s2 so : Nat) : List String :=
+def handleSync (tag : String) (c : Cache) (tok : Id) (src : Source) (k : Int) (sp : SP) (sb s1 s2 so : Nat) : List String :=
   let w := world src sb s1 s2 so
-  let d : CData := ⟨fun n => w.hist c.runId n, (c.runId, match c.rdb with | some (l, _) => l | none => 0)⟩
+  let d : CData := ⟨fun n => w.hist c.runId n, (tok, match c.rdb with | some (l, _) => l | none => 0)⟩
   let ids := [src.id1, src.id2]
   let q0 := c.startPoint ids
   let (rl, rs) := c.getRdb c.runId
@@ -98,7 +99,7 @@ def handleSync (tag : String) (c : Cache) (src : Source) (k : Int) (sp : SP) (sb
   [qline, mline, ioline, aline, bline]
 
 def handle : List String → Option (List String)
-  | "sync" :: tag :: be :: id1 :: id2 :: sw :: bl :: bf :: blen :: mo :: sl :: capa :: k :: spId :: spOff :: cRun :: rdbL :: rdbS :: aofL :: aofR :: sb :: s1 :: s2 :: so :: _ =>
+  | "sync" :: tag :: be :: id1 :: id2 :: sw :: bl :: bf :: blen :: mo :: sl :: capa :: k :: spId :: spOff ::  cRun :: rdbL :: rdbS :: tok :: aofL :: aofR :: sb :: s1 :: s2 :: so :: _ =>
     let r : Option (List String) := do
       let backend ← if be == "d" then some Backend.disk else if be == "m" then some Backend.memory else none
       let id1 ← Hex.decode id1
@@ -114,6 +115,7 @@ def handle : List String → Option (List String)
       let cRun ← Hex.decode cRun
       let rdbL ← optInt rdbL
       let rdbS ← optInt rdbS
+      let tok ← Hex.decode tok
       let aofL ← optInt aofL
       let aofR ← optInt aofR
       let sb ← sb.toNat?
@@ -123,7 +125,7 @@ def handle : List String → Option (List String)
       let rdb := match rdbL, rdbS with | some l, some s => some (l, s) | _, _ => none
       let aof := match aofL, aofR with | some l, some r => some (l, r) | _, _ => none
       let src : Source := ⟨id1, id2, sw, bl == "1", bf, blen, mo, sl, capa == "1"⟩
-      pure (handleSync tag ⟨backend, cRun, rdb, aof⟩ src k ⟨spId, spOff⟩ sb s1 s2 so)
+      pure (handleSync tag ⟨backend, cRun, rdb, aof⟩ tok src k ⟨spId, spOff⟩ sb s1 s2 so)
     some (r.getD ["bad-op"])
   | _ => none
 
